@@ -618,6 +618,9 @@ def cmp_bits(got, exp, what):
     ea = np.asarray(exp)
     if ga.shape != ea.shape:
         return '%s: shape %r, expected %r' % (what, ga.shape, ea.shape)
+    if ga.ndim == 0:
+        ga = ga.reshape(1)
+        ea = ea.reshape(1)
     gb = be_bits(ga)
     if gb is None:
         return '%s: dtype %s is not float32' % (what, ga.dtype)
